@@ -47,7 +47,9 @@ RULE = (
     "fft; PACF length 6-12 x lags x 4 methods; TabularToSeriesAdaptor x MinMax/Standard/log1p x "
     "fit series same/other; utils _slope/_fit_trend.  VERIF_SEED only rotates the value family "
     "(pure tags | tags + a non-linear wiggle < 0.5) of the copy-type transformers; numeric "
-    "transformers run both families.  non-trivial = configuration accepted by the transformer and "
+    "transformers run both families.  Tier thorough: instances 1-4, equal length 2-10, unequal "
+    "lengths from {3..7}, random_state 0-19, 2-interval lists up to L=6, plateau patterns up to "
+    "length 8, Imputer <=3 NaN in length <=8, ACF length <=14, PACF length <=16.  non-trivial = configuration accepted by the transformer and "
     "compared cell by cell with the reference; distinct = distinct case dict."
 )
 ASSUMPTIONS = [
@@ -94,8 +96,8 @@ ASSUMPTIONS = [
 ]
 
 UNEQ = {"quick": [3, 4, 5, 6], "thorough": [3, 4, 5, 6, 7]}
-EQ = {"quick": list(range(2, 9)), "thorough": list(range(2, 10))}
-NMAX = {"quick": 3, "thorough": 3}
+EQ = {"quick": list(range(2, 9)), "thorough": list(range(2, 11))}
+NMAX = {"quick": 3, "thorough": 4}
 RS = {"quick": 10, "thorough": 20}
 
 
